@@ -765,3 +765,21 @@ fn c15_frame_header_roundtrip() {
     }
     kani::cover!(x == 255 && num == 127 && bits == 24);
 }
+
+// ================================================================================================
+// NOT COVERED by Kani units (measured, see the agent report of 2026-09-29)
+// ================================================================================================
+// `residual`, and therefore `fixed_lpc`, `lpc`, `subframe`, `frame` and `stream`, on arbitrary bytes:
+//   * CBMC does not constant-propagate through nom's closure/tuple plumbing: EVERY `bit_take` loop
+//     is unwound to the harness bound (~0.3 s of symex per iteration), nothing is pruned, so the
+//     cost is the PRODUCT of the nested loop bounds (partitions x samples x unary x take);
+//   * `residual` allocates `Vec::with_capacity(1 << partition_order)` with a symbolic order
+//     (README pitfall 1) and does 64-bit `/` and `*` on symbolic sizes: 1 input byte / unwind 3
+//     already gives 2.1 M variables (90 s); 2 input bytes / unwind 4 runs out of memory, even with
+//     `unary_code`, `find_max`, `wrapping_sum` replaced by contracts;
+//   * functions returning `impl FnMut` (`frame_header`, `subframe`, `residual`, ..) cannot be
+//     stubbed ("Expected return type {closure@..}"), so `frame` cannot be verified modulo callee
+//     contracts either; `unary_code` on 2 bytes (unwind 19) exceeds 300 s.
+// The panics behind these parsers (LPC order 25..=32, STREAMINFO 25 bits + side channel, 8-bit
+// block-size field 255 reached from `frame`) were confirmed by concrete execution instead; the
+// patch /verif/attic/patches/c16_parser_no_panic.patch turns them into nom errors.
